@@ -51,7 +51,7 @@ RegV(e) ==
 
 -----------------------------------------------------------------------------
 Mat(T, a, b) == T.data[(a - 1) * T.shape[2] + b]          \* 1-based matrix entry
-IsMat(T, r, c) == IsTens(T) /\ T.shape = <<r, c>> /\ AllFin(T)
+IsMat(T, r, c) == IsTens(T) /\ T.shape = <<r, c>>
 FitShapesOK(c, f, mtest) ==
     /\ IsMat(f.scores, c.n, c.nc) /\ IsMat(f.transform, c.n, c.nc)
     /\ DOMAIN f.loads = 1..Len(c.xs) /\ \A m \in 1..Len(c.xs) : IsMat(f.loads[m], c.xs[m], c.nc)
@@ -70,6 +70,8 @@ PlsV(e) ==
     ELSE IF ~(IsIntSeq(e.perm, c.n) /\ {e.perm[k] : k \in 1..c.n} = 0..(c.n - 1) /\ e.yoff \in 1..9 /\ e.mtest \in 1..8) THEN "InDomain"
     ELSE IF e.base.raised \/ e.shiftx.raised \/ e.shifty.raised \/ e.permfit.raised THEN "FitRaised"
     ELSE IF \E f \in {e.base, e.shiftx, e.shifty, e.permfit} : ~FitShapesOK(c, f, e.mtest) THEN "Shapes"
+    ELSE IF \E f \in {e.base, e.shiftx, e.shifty, e.permfit} :
+                 ~(AllFin(f.scores) /\ AllFin(f.transform) /\ AllFin(f.yload) /\ AllFin(f.pred) /\ \A m \in 1..Len(c.xs) : AllFin(f.loads[m])) THEN "Finite"
     ELSE IF \E f \in {e.base, e.shiftx, e.shifty, e.permfit} : ~Close(f.transform, f.scores, PlsTol) THEN "TransformIsScores"
     ELSE IF \E f \in {e.base, e.shiftx, e.shifty, e.permfit} :
                  ~UnitCols(f.yload) \/ \E m \in 1..Len(c.xs) : ~UnitCols(f.loads[m]) THEN "UnitLoadings"
